@@ -91,6 +91,36 @@ pub mod microstack {
         uninterp spec fn decrease(&self) -> Option<nat>;
         uninterp spec fn peek(&self, i: int) -> Option<V>;
     }
+    // ---- std `map(f).collect::<Vec<_>>()` on the member iterator (inherent shim methods, see shim/micromap.rs) ----
+    pub trait IsVecOf<B> { spec fn items(&self) -> Seq<B>; }
+    impl<B> IsVecOf<B> for Vec<B> { open spec fn items(&self) -> Seq<B> { self@ } }
+    #[verifier::external_body]
+    #[verifier::accept_recursive_types(V)]
+    #[verifier::accept_recursive_types(B)]
+    #[verifier::accept_recursive_types(F)]
+    pub struct MapIter<'a, V: Copy, B, F, const N: usize> { p: PhantomData<(&'a V, B, F)> }
+    impl<'a, V: Copy, B, F, const N: usize> MapIter<'a, V, B, F, N> {
+        pub uninterp spec fn src(&self) -> Seq<V>;
+        pub uninterp spec fn f(&self) -> F;
+    }
+    impl<'a, V: Copy, const N: usize> IntoIter<'a, V, N> {
+        #[verifier::external_body]
+        pub fn map<B, F: FnMut(V) -> B>(self, f: F) -> (r: MapIter<'a, V, B, F, N>)
+            requires
+                self.pos() == 0,
+                forall|i: int| 0 <= i < self.src().len() ==> f.requires((#[trigger] self.src()[i],)),
+            ensures r.src() == self.src(), r.f() == f,
+        { unimplemented!() }
+    }
+    impl<'a, V: Copy, B, F: FnMut(V) -> B, const N: usize> MapIter<'a, V, B, F, N> {
+        /// the result lists f(member) for every member, in iteration (= stored) order
+        #[verifier::external_body]
+        pub fn collect<C: IsVecOf<B>>(self) -> (r: C)
+            ensures
+                r.items().len() == self.src().len(),
+                forall|k: int| #![trigger r.items()[k]] #![trigger self.src()[k]] 0 <= k < self.src().len() ==> self.f().ensures((self.src()[k],), r.items()[k]),
+        { unimplemented!() }
+    }
     impl<V: Copy, const N: usize> Clone for Stack<V, N> {
         #[verifier::external_body]
         fn clone(&self) -> (r: Self) ensures r.view() == self.view() { unimplemented!() }
